@@ -4,7 +4,7 @@ import math
 import numpy as np
 
 from . import _rfa as R
-from .. import gen, tol
+from .. import callform, gen, tol
 from ..core import fp_watch
 
 PROPERTY = "C15"
@@ -108,8 +108,19 @@ def run_tapped_case(ctx, kind_, idx):
     else:
         snr = rng.uniform(1, 100, n)
         kw["snr_in_db"] = False
+    if snr is not None and rng.integers(0, 4) == 0:
+        # levels as they come out of a configuration table or an integer column: whole numbers in a NumPy integer
+        # type, signed or unsigned, narrow or wide (10 ** (snr / 10) and sp / snr are floating-point quantities)
+        dt = [np.int64, np.int8, np.int16, np.uint8, np.uint16, np.uint32, np.uint64, int][int(rng.integers(0, 8))]
+        whole = np.clip(np.round(np.abs(np.asarray(snr, dtype=float))), 1, 100)
+        if isinstance(snr, (list, np.ndarray)):
+            snr = whole.astype(dt if dt is not int else np.int64)
+        else:
+            snr = dt(int(whole))
+        kw["_snr_type"] = np.dtype(dt).name if dt is not int else "int"
+    snr_type = kw.pop("_snr_type", None)
     info = {"n": n, "signal": acls, "snr": snr if not isinstance(snr, (list, np.ndarray)) else "per-sample",
-            "kw": kw, "via_weaver": via_weaver}
+            "snr_type": snr_type, "kw": kw, "via_weaver": via_weaver}
     if n <= 8:
         info["a"] = a
     npseed = int(rng.integers(0, 2 ** 31 - 1))
@@ -147,7 +158,8 @@ def run_tapped_case(ctx, kind_, idx):
                     ctx.violation("noise_changed_x", cid, {"case": info})
                     return
             else:
-                out = noise_gauss(ain, snr, **kw) if snr is not None else noise_gauss(ain, **kw)
+                out = callform.call(rng, noise_gauss, "process.noise_gauss", [ain], dict(kw, snr=snr), p_pos=0.4) \
+                    if snr is not None else noise_gauss(ain, **kw)
     except Exception as e:
         ctx.judged()
         ctx.exception("raised_on_admissible_input", cid, e, {"case": info})
